@@ -106,6 +106,7 @@ def run(ctx):
     chk.rule('A4', 'every write (library writer with a size, unbounded writer, subscript/pointer store, (buffer,size) '
                    'contract at call sites) stays inside its destination object for all values the linear facts admit', floor=120)
     chk.rule('A4T', 'after a non-terminating writer a terminating store reaches every later use as a string', floor=8)
+    chk.rule('A4R', 'every data source leaves its result buffer NUL-terminated on every return path', floor=30)
     chk.rule('A4O', 'no signed arithmetic on integers converted from input text without a dominating range check', floor=1)
     chk.rule('A5', 'results that may be NULL / buffers only valid on success are tested before use', floor=60)
     chk.rule('D1', 'derived facts the bounds rely on: the clamp of the length parser and the range of the two limits; '
@@ -201,6 +202,15 @@ def run(ctx):
                 chk.ob('A4T', 'terminated[%s:%s#%d]' % (f.name, c['callee'], i), x is None, (x.node if x else c).where(),
                        f.name, x.detail if x else '',
                        how='a terminator is stored (or the destination is not used as a string) on every path after %s' % render(c)[:50])
+    # ---- A4R: data sources leave their result terminated ---------------------------------------------
+    memo = {}
+    for ds in common.datasource_functions(prog):
+        okr, node = terminate.result_terminated(prog, ds, 0, memo)
+        chk.ob('A4R', 'result-terminated[%s]' % ds.name, okr, (node or ds.body).where(), ds.name,
+               '%s can return at %s after filling its result buffer without a terminator: the message then continues '
+               'with whatever the (reused) buffer held before, e.g. text of an earlier exec' % (
+                   ds.name, node.where() if node is not None else ''),
+               how='on every path to a return the last write to the result buffer is a terminating one (or none)')
     # ---- A4O --------------------------------------------------------------------------------------
     nconv = 0
     for key, (f, _, _) in sorted(reach.items(), key=lambda kv: str(kv[0])):
